@@ -409,6 +409,7 @@ def run(ctx):  # noqa: C901, PLR0912, PLR0915
     from .c09 import enqueue_is_bounded
     enqueue_is_bounded(ctx, 'C13.R4')   # a request never waits for ever for a slot of the operations queue
     from . import common
+    common.codec_keeps_no_state(ctx, 'C13.R2', 'sdc11073.pysoap.msgreader.MessageReader', 'message reader')
     common.log_templates_are_constant(ctx, 'C13.R3', ['sdc11073.dispatch', 'sdc11073.httpserver', 'sdc11073.pysoap.msgreader',
                                                       'sdc11073.provider.dpwshostedservice',
                                                       'sdc11073.consumer.request_handler_deferred',
@@ -449,9 +450,10 @@ def worker_loops_contained(ctx, rule, workers):
                             deref.append(x)
                         if isinstance(x, ast.Attribute) and isinstance(x.ctx, ast.Load) and not x.attr.startswith('__') and \
                                 isinstance(x.value, ast.Attribute) and not x.value.attr.startswith('__') and \
-                                (dotted(x.value.value) or '?').split('.')[0] not in ('self', 'traceback', 'logging') and \
-                                not isinstance(getattr(x, '_parent', None), ast.Call):
-                            deref.append(x)
+                                isinstance(x.value.value, ast.Attribute) and not x.value.value.attr.startswith('__') and \
+                                (dotted(x.value.value.value) or '?').split('.')[0] not in ('self', 'traceback', 'logging') and \
+                                not isinstance(getattr(x, '_parent', None), ast.Attribute):
+                            deref.append(x)   # local.a.b.c: three steps into an object of the failed message
         if deref:
             ctx.ob(rule, f'{fi.cls.name}.{fi.name} catch-all is total', False,
                    f'{fi.name}: the catch-all that keeps the thread alive evaluates {[unparse(d) for d in deref][:3]}; for a '
